@@ -1,3 +1,4 @@
+import FsDb.Proofs.ConcMain
 import FsDb.Proofs.Refine
 import FsDb.Proofs.SpecInv
 import FsDb.Proofs.SpecShift
@@ -95,6 +96,40 @@ theorem C09_background_erasure (ops : List Op) (hops : ∀ op ∈ ops, op.core =
   rw [Refine.run_init ops hops,
       Refine.run_init (ops.filter (fun o => !isBg o)) (fun op h => hops op (List.mem_filter.mp h).1)]
   exact C09_background_erasure_spec ops hops
+
+/-- **… and under concurrency.**  For EVERY schedule of EVERY client programs of the small-step
+    model (`Model/Conc`: any number of collector passes and pool workers running concurrently with
+    the clients, step by step, with stale horizons, also inside the window of a Commit): the answers
+    logged for the clients' operations, in the order of their linearization points, are exactly what
+    the specification answers to those operations when no collector and no pool worker ever runs.
+    (Every returned answer — GetKeys excepted — is a logged answer or the specification's answer at a
+    log position: `C06_linearizable`.) -/
+theorem C09_concurrent_erasure (acts : List Conc.Act) :
+    let σ := Conc.exec {} acts
+    keepFg (opsOf (Conc.linOps σ.lin)) (Conc.linOuts σ.lin)
+      = (Spec.run {} ((opsOf (Conc.linOps σ.lin)).filter (fun o => !isBg o))).2 := by
+  intro σ
+  have h := Conc.reachable_inv acts
+  have hp : ∀ op ∈ opsOf (Conc.linOps σ.lin), plainOp op = true := by
+    have hpl : ∀ e ∈ Conc.linOps σ.lin, e.plain = true := by
+      intro e he
+      obtain ⟨x, hx, rfl⟩ := List.mem_map.mp he
+      exact h.plain x hx
+    generalize Conc.linOps σ.lin = es at hpl
+    induction es with
+    | nil => intro op hop; cases hop
+    | cons e es ih =>
+      have hrest := ih (fun e' he' => hpl e' (List.mem_cons_of_mem _ he'))
+      cases e with
+      | op o =>
+        intro op hop
+        simp only [opsOf, List.mem_cons] at hop
+        rcases hop with rfl | hop
+        · exact hpl (.op op) (by simp)
+        · exact hrest op hop
+      | tick n => intro op hop; exact hrest op (by simpa [opsOf] using hop)
+  rw [← Conc.log_pure h]
+  exact erase_bg (Shift.refl {}) SInv.init OwnLe.init _ hp
 
 /-- non-vacuity: a snapshot reader keeps its version across two collector passes (on the
     specification by evaluation; the concrete model answers the same by `C09_refinement_with_gc`) -/
